@@ -279,6 +279,46 @@ M("C10", "item-yielded-twice", F, '                        yield x\n', '        
 M("C10", "flush-only-long-lines", F, '                if item in "{};":\n', '                if item in "{};" and len(line) > 1:\n', "C10.R3")
 
 
+# ---------------------------------------------------------------------------------------------------- R3: where / how the module's parser object is built
+# The parser identity is the module-level NAME all of whose bindings are lark `Lark(...)` / `Lark.open(...)` constructions,
+# wherever the binding stands in the module's own scope (plain statement, `with open(...)`, `try`, `if`) and whichever lark
+# constructor is used.  A name bound to something the rule cannot follow (a loader function) -> undecided, but the other
+# conditions of the reader / renderer (source text unchanged, own tree, result returned as it is) are still decided.
+IMPORT_OS = "import collections\n"
+_WITH_PARSER = (
+    'with open(os.path.join(os.path.dirname(__file__), "c2profile.lark"), encoding="utf8") as _grammar_fh:\n'
+    '    c2profile_parser = Lark(_grammar_fh, parser="lalr", maybe_placeholders=False)\n'
+)
+_TEXT_PARSERS = (
+    'with open(os.path.join(os.path.dirname(__file__), "c2profile.lark"), encoding="utf8") as _grammar_fh:\n'
+    '    _grammar_text = _grammar_fh.read()\n'
+    '    c2profile_parser = Lark(_grammar_text, parser="lalr", maybe_placeholders=False)\n'
+    '    _render_parser = Lark(_grammar_text, parser="lalr", maybe_placeholders=False, keep_all_tokens=True)\n'
+)
+_LOADER = 'def _load_parser():\n    return Lark.open("c2profile.lark", parser="lalr", rel_to=__file__, maybe_placeholders=False)\n\n\nc2profile_parser = _load_parser()\n'
+T("C10", "twin-parser-built-from-open-file", F, PARSER, _WITH_PARSER, edits=[(F, IMPORT_OS, IMPORT_OS + "import os\n"), (F, PARSER, _WITH_PARSER)])
+T("C10", "twin-parser-built-under-try", F, PARSER,
+  'try:\n    ' + PARSER + 'except OSError as exc:  # pragma: no cover\n    raise ImportError("the c2profile.lark grammar is missing from the installation") from exc\n')
+T("C10", "twin-parser-alias-under-if", F, PARSER, PARSER + 'if TYPE_CHECKING:\n    pass\nelse:\n    _PROFILE_PARSER = c2profile_parser\n',
+  edits=[(F, PARSER, PARSER + 'if TYPE_CHECKING:\n    pass\nelse:\n    _PROFILE_PARSER = c2profile_parser\n'), (F, FROM_TEXT, '        profile.tree = _PROFILE_PARSER.parse(source)\n')])
+T("C10", "twin-parser-and-reconstructor-in-with-block", F, PARSER, _WITH_PARSER,
+  edits=[(F, IMPORT_OS, IMPORT_OS + "import os\n"), (F, PARSER, _WITH_PARSER + "    _RECONSTRUCTOR = Reconstructor(c2profile_parser)\n"),
+         (F, RETURN, '        return _RECONSTRUCTOR.reconstruct(self.tree, postproc)\n')])
+# the parser comes out of a loader function: which object the name denotes is not followed (undecided, silent)
+T("C10", "twin-parser-from-loader-function-undecided", F, PARSER, _LOADER)
+M("C10", "with-block-second-parser-for-rendering", F, PARSER, _TEXT_PARSERS, "C10.R3",
+  edits=[(F, IMPORT_OS, IMPORT_OS + "import os\n"), (F, PARSER, _TEXT_PARSERS), (F, RETURN, '        return Reconstructor(_render_parser).reconstruct(self.tree, postproc)\n')])
+M("C10", "with-block-parser-source-expandtabs", F, PARSER, _WITH_PARSER, "C10.R3",
+  edits=[(F, IMPORT_OS, IMPORT_OS + "import os\n"), (F, PARSER, _WITH_PARSER), (F, FROM_TEXT, '        profile.tree = c2profile_parser.parse(source.expandtabs(4))\n')])
+M("C10", "loader-function-parser-source-casefolded", F, PARSER, _LOADER, "C10.R3",
+  edits=[(F, PARSER, _LOADER), (F, FROM_TEXT, '        profile.tree = c2profile_parser.parse(source.casefold())\n')])
+M("C10", "loader-function-parser-render-result-stripped", F, PARSER, _LOADER, "C10.R3",
+  edits=[(F, PARSER, _LOADER), (F, RETURN, '        return Reconstructor(c2profile_parser).reconstruct(self.tree, postproc).strip()\n')])
+M("C10", "try-bound-parser-local-parser-in-reader", F, PARSER, "x", "C10.R3",
+  edits=[(F, PARSER, 'try:\n    ' + PARSER + 'except OSError as exc:  # pragma: no cover\n    raise ImportError("grammar missing") from exc\n'),
+         (F, FROM_TEXT, '        profile.tree = Lark.open("c2profile.lark", rel_to=__file__, keep_all_tokens=True).parse(source)\n')])
+
+
 # ---------------------------------------------------------------------------------------------------- R8: the parser's tree is the tree that is printed
 # (a part of the tree = whatever is read off the `.parse(...)` result / the profile's `.tree` by attribute, item, iteration,
 # unpacking, navigation method; fresh collections of parts - list(..), slices, comprehensions - may be changed freely)
